@@ -597,7 +597,9 @@ class ReleaseJobs:
                 "deltas": [rng.choice([3, 3, 3, 40, 400, -20, -45, -400]) for _ in range(7)],
                 # every job runs in a fresh clone: the earlier releases are tags on the remote that arrive with the fetch;
                 # the clone's branch may have no upstream (detached HEAD of a CI checkout)
-                "clone": rng.random() < 0.4, "no_upstream": rng.random() < 0.5}
+                "clone": rng.random() < 0.4, "no_upstream": rng.random() < 0.5,
+                # other tools tag too: CI / deploy / nightly tags, created after each release
+                "ci_tags": rng.choice([0, 0, 0, 40, 130])}
 
     def run(self, case, ctx):
         import os
@@ -659,6 +661,16 @@ class ReleaseJobs:
                 repo.tags[new] = repo.head_commit()
             if not committing:
                 invoker.write_tree(d, pristine)
+            for i in range(case.get("ci_tags", 0)):
+                name = "ci-%d-%03d" % (job, i)
+                if clone:
+                    remote_tags.append(name)
+                else:
+                    repo.tags[name] = repo.head_commit()
+            if clone and case.get("ci_tags"):
+                repo.pending_remote_tags = [(t, repo.head_commit()) for t in remote_tags]
+            if case.get("ci_tags"):
+                ctx.probe("many_other_tags")
             delta = case.get("deltas", [3] * 7)[job % 7]
             clock += dt.timedelta(days=delta)
             if delta < 0:
